@@ -27,6 +27,7 @@ type item struct {
 	T     int    `json:"threads"`
 	Buf   int    `json:"bufsize"`
 	N     int    `json:"n"`
+	Reuse bool   `json:"estimator_reused_after_sequential_run,omitempty"`
 	Bound int    `json:"preemption_bound"`
 	Cap   int64  `json:"execution_cap"`
 	b     *body
@@ -82,6 +83,14 @@ func items(tier string, race bool) []item {
 						}
 					}
 					r = append(r, it)
+					// the same item with the estimator object first used sequentially
+					// (only where a small exploration suffices: one data size per body)
+					if n == b.sizes(T)[0] && buf == 100 {
+						it2 := it
+						it2.Reuse = true
+						it2.Cap = it.Cap / 2
+						r = append(r, it2)
+					}
 				}
 			}
 		}
@@ -117,6 +126,8 @@ func anomalyKind(s string) string {
 
 // exploreItem runs the bounded DFS for one item; reports through c.
 func exploreItem(c *vf.Ctx, it item, idx int, race bool) {
+	reuseFirst = it.Reuse
+	defer func() { reuseFirst = false }()
 	// sequential reference: pool of size 1 (the zero pool, runs inline)
 	ref, rerr := it.b.run(it.N, tp.New(1, it.Buf))
 	refErr := ""
@@ -136,11 +147,17 @@ func exploreItem(c *vf.Ctx, it item, idx int, race bool) {
 		T: it.T, buf: it.Buf, bound: it.Bound, cap: it.Cap, shard: c.Shard, nshard: c.NShard}
 	d.branchIdx = int64(idx) // rotate which shard gets which branch
 	label := fmt.Sprintf("%s|T=%d|buf=%d", it.Body, it.T, it.Buf)
+	if it.Reuse {
+		label += "|reused"
+	}
 	d.visit = func(prefix []int, r *execResult, npts, pre int) {
 		c.Eval(1)
 		cs := Case{Item: it, Prefix: append([]int{}, prefix...), Race: race}
 		rank := int64(len(prefix)*100 + it.T*10 + it.N)
 		cls := fmt.Sprintf("%s|T=%d", it.Body, it.T)
+		if it.Reuse {
+			cls += "|estimator-reused-after-sequential-run"
+		}
 		if e.overflow {
 			c.Cap("more than 4096 choice points in one execution: " + label)
 		}
@@ -389,6 +406,7 @@ func main() {
 				return
 			}
 			it := cs.Item
+			reuseFirst = it.Reuse
 			it.Bound, it.Cap = 0, 1
 			ref, _ := it.b.run(it.N, tp.New(1, it.Buf))
 			e := &explorer{}
